@@ -42,7 +42,7 @@ ASSUMPTIONS = [
     "layer_norm=False): batch norm in training mode couples the rows of a batch through its statistics by design",
 ]
 REQUIRED_COUNTERS = ["learn_steps", "bellman_loss_checks", "soft_update_leaves", "terminal_masking_checks"]
-CASE_TIMEOUT_S = 300
+CASE_TIMEOUT_S = 1500
 
 
 def preload():
